@@ -64,11 +64,12 @@ CHECKS += [
       note="numpy.linalg.inv = adjugate; python % = floor modulo; the sweep loop of gethkls is only covered by the bounded stand-in; " + BOUNDED_NOTE,
       technique="symbolic execution of the real python functions (z3, all integers) + brute-force enumeration oracle on a stated grid"),
  dict(id="C05", engine="cfront+csym", category="other", design_ref="DESIGN.md section 5 C05",
-      text="proved: memory safety of the compiled quickorient kernel. Bounded: for 9 cells of all lattice systems, random orientations and every non-collinear "
+      text="proved: memory safety of the compiled quickorient kernel and its Busing-Levy postcondition (for all g1, g2 with g1 x g2 != 0 and all BT the "
+           "result R has R.g1 = BT.(|g1|,0,0), R.(g1 x g2) = BT.(0,0,|g1 x g2|), R.g2 = BT.(g1.g2/|g1|, -|g1 x g2|/|g1|, 0), over the reals). Bounded: for 9 cells of all lattice systems, random orientations and every non-collinear "
            "reflection pair of the first rings, every candidate of unitcell.orient is right handed, has the cell's parameters, indexes both reflections, the list "
            "contains the true orientation (crange mode) and no two equivalent candidates",
-      note="the functional clauses of C05 are decided by a bounded stand-in only; " + BOUNDED_NOTE,
-      technique="safety contract on the real C (z3) + run-time contract evaluation of the real orient / filter_pairs on a stated grid"),
+      note="the python side of C05 (BTmat, filter_pairs, the candidate list of orient) is decided by a bounded stand-in only; " + BOUNDED_NOTE,
+      technique="functional + safety contract on the real C quickorient, VCs from the clang AST discharged by z3 + run-time contract evaluation of the real orient / filter_pairs on a stated grid"),
  dict(id="C12", engine="cfront+csym", category="other", design_ref="DESIGN.md section 5 C12",
       text="proved for all inputs: add_pixel adds exactly the pixel's contribution to each of the accumulators, merge combines two accumulator rows and zeroes the "
            "second; blobproperties: every sum accumulator of every label equals the sum over that label's pixels; memory safety of compute_moments. Bounded: the real labelimage pipeline on every pair of binary 2x3 frames, every triple of "
